@@ -38,6 +38,7 @@ import DdsModel.Drv.C01
 import DdsModel.Proofs.TrapBc
 import DdsModel.Proofs.TrapBc7
 import DdsModel.Proofs.TrapBc6
+import DdsModel.Proofs.TrapUnc
 namespace Dds.C01
 open Dds Dds.Stream Dds.Reader
 
@@ -725,6 +726,88 @@ example :
     TrapBc6.convT false 0 0x7C00 = none ∧ TrapBc6.convT false 0 0x8001 = none ∧
     TrapBc6.signExtendT 64 6 = none ∧ TrapBc6.finishUnquantizeT (-2147483648) true = none ∧
     TrapBc6.paletteEntryT 2147483647 1 0 false = none := by
+  decide +kernel
+
+/-- **Uncompressed / packed formats, all 45 rows of C04's table × every precision** (`src/decode/uncompressed.rs`
+and the conversion functions of `src/color/formats.rs` it calls; the 7 sub-sampled and 3 bi-planar rows are included:
+their per-pixel conversions are the same functions).  For EVERY encoded unit value `word` (no bound: fields are
+extracted by shift and mask) and every pixel `p` of the unit, the trapping mirror returns the pixel of the wrapping
+model `Unc.decodePx`:
+* every `debug_assert!(x <= 1 / 3 / 15 / 31 / 63 / 1023)` of `n1 … n10` holds because the argument is a 1/2/4/5/6/10-bit
+  field; no multiply-add overflows its type: `x * 85`, `x * 17` (`u8`), `x as u16 * 21845 / 4369 / 257`,
+  `x as u16 * 2108 + 92`, `x as u16 * 1036 + 132`, `x as u32 * 138547200` (31 · 138 547 200 = 2^32 − 4 096),
+  `x as u32 * 68173056 + 30976`, `x as u32 * 16336 + 32656`, `x as u32 * 4198340 + 32660`, `x as u32 * 255 + 32895`,
+  SNORM `x as u16 * 258 + 2`, `x as u32 * 16909064 + 32520`, `x as u32 * 65282 + 8388354`, `x as u32 * 65538 + 2`;
+* XR_BIAS: `x as i16 - 0x180` stays in `i16` because `x` is a 10-bit field (it would NOT for `x = 0x8000`: see the
+  example), `(x + 1) >> 1`, `x as u32 * 8421376 + 65535` (510 · 8 421 376 + 65 535 = 2^32 − 1: the last value that fits);
+* fp16 / fp11 / fp10 / R9G9B9E5: `exp as i8 - 25 / 21 / 20 / 24` stays in `i8`, `two_powi`'s
+  `debug_assert!(-126 <= exponent)` holds, `(exponent as i32 + 127) as u32) << 23` shifts by less than 32,
+  `(mant + 7) >> 4`, `(mant + 3) >> 3` stay in `u16`;
+* `f32` paths (`n*::f32`, `s*::uf32`, `fp::n8/n16`, the YUV matrices, clamps, `as u8` / `as u16` of floats): no panic site.
+`Unc.formats.length = 45`. -/
+theorem uncompressed_bodies_trapfree :
+    Unc.formats.length = 45 ∧
+    ∀ fm ∈ Unc.formats, ∀ prec word p : Nat,
+      TrapUnc.decodePxT fm prec word p = some (Unc.decodePx fm prec word p) :=
+  ⟨TrapUnc.formats_len, fun fm hfm prec word p =>
+    TrapUnc.decodePxT_eq fm (TrapUnc.formats_ok fm hfm) prec word p⟩
+
+/-- non-vacuity: pixels through the mirror (B5G6R5 at U16, XR_BIAS at U16 with the bias value 0x180 → 0,
+R10G10B10A2 at U8, R16G16_SNORM at U8 with −32768 / 32767 and the blue default ½); the mirror traps outside the
+field ranges: `xr10::n8(0x8000)` overflows `i16`, `n10::n16(1024)` fails its `debug_assert!` -/
+example :
+    (Unc.findFmt "B5G6R5_UNORM").map (fun fm => TrapUnc.decodePxT fm 1 0xF81F 0) = some (some [65535, 0, 65535]) ∧
+    (Unc.findFmt "R10G10B10_XR_BIAS_A2_UNORM").map (fun fm => TrapUnc.decodePxT fm 1 0xBFF00180 0) =
+      some (some [0, 0, 65535, 43690]) ∧
+    (Unc.findFmt "R10G10B10A2_UNORM").map (fun fm => TrapUnc.decodePxT fm 0 0x7FF003FF 0) =
+      some (some [255, 0, 255, 85]) ∧
+    (Unc.findFmt "R16G16_SNORM").map (fun fm => TrapUnc.decodePxT fm 0 0x80007FFF 0) = some (some [255, 0, 128]) ∧
+    TrapUnc.xr10n8T 0x8000 = none ∧ TrapUnc.n10n16T 1024 = none := by
+  decide +kernel
+
+/-- **Sub-sampled and bi-planar units** (`src/decode/sub_sampled.rs`, `bi_planar.rs`): all pixels of one encoded
+unit — the 2 pixels of a `R8G8_B8G8` / `G8R8_G8B8` / `YUY2` / `UYVY` / `Y210` / `Y216` block, the 8 pixels of an
+`R1_UNORM` byte, a luma sample with its chroma pair for `NV12` / `P010` / `P016` — for every unit value, format row
+and precision; `r1_bits` (`out[i] = (bits >> (7 - i)) & 1`: `usize` subtraction, `u8` shift by `7 - i < 8`, index
+`i < 8`) never traps; `decode_y210` / `to10` shift by the literal 6; the YUV conversions are float arithmetic with
+saturating casts (`Conv.yuvTo`).  (Which unit feeds which output pixel — `process_2x1_blocks_helper`,
+`process_8x1_blocks_helper`, `process_bi_planar_helper`, chroma line pairing — is `C01.decode_addresses_in_view` /
+`decode_addresses_planar` and C04's pairing theorems.) -/
+theorem subsampled_biplanar_bodies_trapfree :
+    (∀ bits, TrapUnc.r1BitsT bits = some ((List.range 8).map fun i => (bits >>> (7 - i)) &&& 1)) ∧
+    ∀ fm ∈ Unc.formats, ∀ prec word : Nat,
+      TrapUnc.unitT fm prec word = some ((List.range fm.pxPerUnit).map (Unc.decodePx fm prec word)) :=
+  ⟨TrapUnc.r1BitsT_eq, fun fm hfm prec word => TrapUnc.unitT_eq fm (TrapUnc.formats_ok fm hfm) prec word⟩
+
+/-- non-vacuity: the eight pixels of the `R1_UNORM` byte `0xA5` at U16, and the table contains units of 2 and 8 pixels
+and bi-planar rows -/
+example :
+    (Unc.findFmt "R1_UNORM").map (fun fm => TrapUnc.unitT fm 1 0xA5) =
+      some (some [[65535], [0], [65535], [0], [0], [65535], [0], [65535]]) ∧
+    (Unc.formats.filter (·.pxPerUnit == 2)).length = 6 ∧ (Unc.formats.filter (·.pxPerUnit == 8)).length = 1 ∧
+    (Unc.formats.filter (·.planar.isSome)).length = 3 := by
+  decide +kernel
+
+/-- **Channel conversion** (`convert_channels_for` / `convert_channels::<Precision>`, `src/color/mod.rs`, with
+`cast::from_bytes` of `src/cast.rs`): for every pair of channel layouts, every precision size (1, 2, 4 bytes) and
+every pixel count `n`, on buffers of `n` pixels each — which is what the five call sites of
+`read_write.rs:781,840,883,943,984` pass (`buffer_chunk` / `out_chunk` or row slices of `chunk_size` resp. `offset_width` pixels) — the three `debug_assert!`s hold, the
+`expect("invalid from buffer")` / `expect("invalid to buffer")` of `cast::from_bytes` succeed (the length is a
+multiple of the chunk size; byte arrays have alignment 1), `from_chunked.len() == to_chunked.len()`, and
+`copy_from_slice` gets equal lengths.  The per-pixel functions of `ch.rs` only use literal indices into
+fixed-size arrays (`Unc.convertChannels`).  `cast.rs` itself: `from_bytes` / `from_bytes_mut` return `Option`, the
+`unwrap`s of `as_flattened*` and of `slice_le_to_ne_16/32` are on the big-endian path or on non-ZST arrays and the
+`assert!(buf.len() % 2 == 0)` / `% 4` are on buffers of whole `u16` / `u32` / `f32` elements (lengths `n * 2`, `n * 4`). -/
+theorem channel_conversion_trapfree (src dst : Unc.Channels) (size n : Nat) (hs : size = 1 ∨ size = 2 ∨ size = 4) :
+    TrapUnc.convertChannelsT src dst size (n * (size * TrapUnc.chanCount src)) (n * (size * TrapUnc.chanCount dst)) =
+      some () ∧
+    (n * 2) % 2 = 0 ∧ (n * 4) % 4 = 0 :=
+  ⟨TrapUnc.convertChannelsT_eq src dst size n hs, Nat.mul_mod_left .., Nat.mul_mod_left ..⟩
+
+/-- non-vacuity: RGB → RGBA at U16 on 2 pixels (12 → 16 bytes) passes; mismatched or ragged buffers trap -/
+example :
+    TrapUnc.convertChannelsT .rgb .rgba 2 12 16 = some () ∧ TrapUnc.convertChannelsT .rgb .rgba 2 12 15 = none ∧
+    TrapUnc.convertChannelsT .rgb .rgba 2 12 24 = none ∧ TrapUnc.convertChannelsT .rgba .rgba 4 32 16 = none := by
   decide +kernel
 
 end Dds.C01
